@@ -682,12 +682,17 @@ pub enum BStep {
     SetLater(&'static str),
     PublishLater(&'static str),
     Adv(u64),
+    /// the (gated) server processes one pending request and answers it
+    Server,
 }
 
 const DELAY_MS: u64 = 100;
 
 pub struct BufferScenario {
     pub steps: Vec<BStep>,
+    /// false: the server answers at once; true: the server only moves at `Server` steps, so values
+    /// are handed in while an earlier set / publish of the same key is still unanswered
+    pub gated: bool,
 }
 
 pub const SIG_PUBLISH_LATER: &str = "publish_later_never_sent";
@@ -706,8 +711,10 @@ impl Scenario for BufferScenario {
                 Ok(r) => r,
                 Err(e) => panic!("{e}"),
             };
-            // the server runs freely here: what it processes is what the client sent
-            rig.gate.permits.add_permits(100_000);
+            if !self.gated {
+                // the server runs freely here: what it processes is what the client sent
+                rig.gate.permits.add_permits(100_000);
+            }
             let buffer = {
                 let slot: Arc<Mutex<Option<worterbuch_client::buffer::SendBuffer>>> = Arc::new(Mutex::new(None));
                 let s2 = slot.clone();
@@ -725,8 +732,19 @@ impl Scenario for BufferScenario {
             let mut handed: BTreeMap<(String, String), Vec<i64>> = BTreeMap::new();
             let mut steps: Vec<BStep> = history.iter().map(|o| self.steps[*o as usize].clone()).collect();
             steps.push(BStep::Adv(3 * DELAY_MS));
-            for st in &steps {
+            let last_ix = history.len().saturating_sub(1);
+            for (ix, st) in steps.iter().enumerate() {
                 match st {
+                    BStep::Server => {
+                        if rig.gate.pending.load(Ordering::SeqCst) == 0 {
+                            if ix == last_ix {
+                                rig.shutdown().await;
+                                return None; // not enabled: nothing waits for the server
+                            }
+                            panic!("MACHINERY: server step not enabled in prefix");
+                        }
+                        rig.server_step().await;
+                    }
                     BStep::SetLater(k) => {
                         n += 1;
                         handed.entry(("set".into(), k.to_string())).or_default().push(n);
@@ -755,6 +773,19 @@ impl Scenario for BufferScenario {
                             spin(60).await;
                             left -= d;
                         }
+                    }
+                }
+            }
+            if self.gated {
+                // the server catches up; whatever that releases in the buffer gets its delay as well
+                for _ in 0..4 {
+                    rig.gate.permits.add_permits(1000);
+                    spin(100).await;
+                    let mut left = 2 * DELAY_MS;
+                    while left > 0 {
+                        tokio::time::advance(Duration::from_millis(25)).await;
+                        spin(60).await;
+                        left -= 25;
                     }
                 }
             }
@@ -840,8 +871,22 @@ impl Scenario for BufferScenario {
     }
 }
 
+pub fn gated_buffer_scenario() -> BufferScenario {
+    BufferScenario {
+        steps: vec![
+            BStep::SetLater("a"),
+            BStep::SetLater("b"),
+            BStep::PublishLater("a"),
+            BStep::Adv(DELAY_MS),
+            BStep::Server,
+        ],
+        gated: true,
+    }
+}
+
 pub fn buffer_scenario() -> BufferScenario {
     BufferScenario {
+        gated: false,
         steps: vec![
             BStep::SetLater("a"),
             BStep::SetLater("b"),
